@@ -61,6 +61,7 @@ type Engine struct {
 	pegFacts    map[string]*actionFacts
 	heapIds     map[int]*Term // heap-id constant (by term id of the id constant) -> array term
 	heapIdOf    map[int]*Term // array term id -> heap-id constant
+	autoInl     map[*FuncInfo]bool
 }
 
 // heapID names an array term by an integer constant, so that spec functions over heaps (psum) do not take
@@ -131,41 +132,46 @@ func (e *Engine) posStr(p token.Pos) string {
 
 // fctx is the context of one function under verification.
 type fctx struct {
-	e            *Engine
-	fi           *FuncInfo
-	con          *Contract
-	entry        *State
-	returns      []*retState
-	boxed        map[*types.Var]bool
-	counters     map[string]int
-	loopOrd      map[ast.Stmt]int
-	callOrd      map[string]int
-	ghost        map[string]*Value // ghost variables by name (values live in State via ghostVars)
-	ghostVar     map[string]*types.Var
-	props        []string
-	resultVars   []*types.Var
-	caseLabel    string
-	jumps        []*jumpFrame
-	spec         bool
-	inlineDepth  int
-	oldState     *State
-	retFrames    []*retFrame
-	pendingLabel string
-	closureLits  map[*types.Var]*ast.FuncLit
-	callIndex    map[*ast.CallExpr]callRef
-	inClause     bool
-	paramTerms   map[string]*Term
-	inGlobalInv  bool
-	inTypeInv    bool
-	rawAccess    bool
-	rawCond      *Term // with rawAccess: the access is raw only under this condition (nil = always)
-	loopPre      []*State
-	tailSwitch   ast.Stmt
-	protected    []protRegion
-	protCells    []protCell
-	localAddr    map[int]bool  // addresses of boxed local variables (by term id)
-	exitExempt   map[int]*Term // object address (term id) -> condition under which its invariant may be violated at this return
-	madeSlices   map[int]bool  // base addresses of slices allocated with make() in this frame (by term id)
+	e             *Engine
+	fi            *FuncInfo
+	con           *Contract
+	entry         *State
+	returns       []*retState
+	boxed         map[*types.Var]bool
+	counters      map[string]int
+	loopOrd       map[ast.Stmt]int
+	callOrd       map[string]int
+	ghost         map[string]*Value // ghost variables by name (values live in State via ghostVars)
+	ghostVar      map[string]*types.Var
+	props         []string
+	resultVars    []*types.Var
+	caseLabel     string
+	jumps         []*jumpFrame
+	spec          bool
+	inlineDepth   int
+	oldState      *State
+	retFrames     []*retFrame
+	pendingLabel  string
+	closureLits   map[*types.Var]*ast.FuncLit
+	callIndex     map[*ast.CallExpr]callRef
+	inClause      bool
+	paramTerms    map[string]*Term
+	inGlobalInv   bool
+	inTypeInv     bool
+	rawAccess     bool
+	rawCond       *Term // with rawAccess: the access is raw only under this condition (nil = always)
+	loopPre       []*State
+	tailSwitch    ast.Stmt
+	protected     []protRegion
+	protCells     []protCell
+	rangeSeen     []*types.Var // seen-set variables of the enclosing modelled range loops
+	lastRangeSeen *types.Var
+	entryBind     map[string]*Value // parameter values at entry, by name
+	atOrd         int
+	autoInline    int
+	localAddr     map[int]bool  // addresses of boxed local variables (by term id)
+	exitExempt    map[int]*Term // object address (term id) -> condition under which its invariant may be violated at this return
+	madeSlices    map[int]bool  // base addresses of slices allocated with make() in this frame (by term id)
 }
 
 // nonNilElem: slices of this element type hold no nil once they are visible outside the frame that built them.
